@@ -17,7 +17,7 @@ RULE = ('(formula, data, semantics in {standard, output_robustness, input_robust
         'only inputs, only outputs, mixed and variable-free all occur. Oracle: the reference semantics with the predicate rule of the '
         'statement (insensitive predicate -> +inf/-inf by satisfaction with strict/non-strict comparison as written, resp. 0 under the '
         'vacuity semantics; every other predicate keeps its robustness); second relation: under STANDARD the result is identical for '
-        'every io assignment (compared with the run without declarations and with the reference). Lane modular: a decomposition into sub-specifications (machinery of C09; in half of the cases an arithmetic term that is a sub-specification of its own and the left operand of two predicates) under an interface-aware semantics equals the inlined specification under the same semantics on the same monitor. Lane reparse: the io declarations of an object are changed and the text parsed again '
+        'every io assignment (compared with the run without declarations and with the reference). Lane struct: the variables are (nested) fields of two objects of a user-defined type whose io type is declared on the object; equal to the specification over plain variables with those io types. Lane modular: a decomposition into sub-specifications (machinery of C09; in half of the cases an arithmetic term that is a sub-specification of its own and the left operand of two predicates) under an interface-aware semantics equals the inlined specification under the same semantics on the same monitor. Lane reparse: the io declarations of an object are changed and the text parsed again '
         '(variables declared through the API, or implicitly by the first parse()): the result is that of a fresh object with the new declarations. Non-trivial = a non-standard '
         'semantics with >= 1 insensitive and >= 1 sensitive predicate; distinct = distinct (formula, data, semantics, io, kind) digests.')
 
@@ -391,7 +391,53 @@ def cand_modular(case):
         yield c
 
 
+# ---- object-valued variables: the io declaration belongs to the object, the predicates mention its fields -------------
+
+@st.composite
+def struct_cases6(draw, tier):
+    from ..structs import PATHS
+    kind = draw(st.sampled_from(['dt_off', 'dt_on', 'ct_off', 'ct_on']))
+    c = draw(dt_cases6(tier, kind)) if kind.startswith('dt') else draw(ct_cases6(tier, kind))
+    slots = [(o, p) for o in ('m', 'n') for p in PATHS]
+    picks = draw(st.permutations(slots))
+    c['paths'] = {v: list(picks[i]) for i, v in enumerate(c['vars'])}
+    c['objio'] = {'m': draw(st.sampled_from(['input', 'output', None])), 'n': draw(st.sampled_from(['input', 'output', None]))}
+    if 'signals' in c:
+        from ..dense import grid_signal
+        ks = [k for k, _ in draw(grid_signal(0, max_samples=6))]
+        c['signals'] = {v: [[k, draw(F.values())] for k in ks] for v in c['vars']}
+    return c
+
+
+def check_struct6(case):
+    """Under every semantics the specification over fields of declared-input / declared-output objects equals the same
+    specification over plain variables with the io type of their object."""
+    from .C17 import run_struct, data_of
+    kind = case['kind']
+    f = from_json(case['formula'])
+    vs = [v for v in case['vars'] if v in F.fvars(f)]
+    sem = case['sem']
+    labels = ['struct', 'kind:' + kind, 'sem:' + sem] + feature_labels(f)
+    if not vs:
+        return DISCARD('no-variable', labels)
+    data = data_of(case)
+    plain = run_struct(kind, f, vs, data, case['paths'], False, sem=sem, objio=case['objio'])
+    if plain[0] != 'ok':
+        return DISCARD('plain-raises(other lanes):' + plain[1], labels)
+    st_ = run_struct(kind, f, vs, data, case['paths'], True, sem=sem, objio=case['objio'])
+    desc = 'monitor %s, semantics %s, io of the objects %s\nspec over plain variables: %s\nfield paths: %s\ndata: %s' % (
+        kind, sem, case['objio'], show(f), {v: '.'.join(case['paths'][v]) for v in vs}, {v: data[v] for v in vs})
+    if st_[0] != 'ok':
+        return FAIL('struct-raises:%s:%s' % (kind, st_[1]), desc + '\nwith the variables as fields of objects: raised %s: %s at %s' % (st_[1], st_[3], st_[4]), labels)
+    if repr(st_[1]) != repr(plain[1]):
+        return FAIL('ia-struct-differs:%s:%s' % (kind, 'standard' if sem == 'standard' else 'ia'), desc + '\nfields of objects: %r\nplain variables:   %r' % (st_[1], plain[1]), labels)
+    io = {v: case['objio'].get(case['paths'][v][0]) for v in vs}
+    ins, sen = pred_classes(f, sem, io) if sem != 'standard' else (0, 0)
+    return PASS(ins >= 1 and sen >= 1, labels)
+
+
 LANES = [
+    Lane('struct', struct_cases6, check_struct6, 1500, 15000, None),
     Lane('modular', modular_cases, check_modular, 2000, 20000, cand_modular),
     Lane('reparse', lambda tier: reparse_cases(tier), check_reparse, 1000, 15000, std_candidates),
     Lane('dt_off', lambda tier: dt_cases6(tier, 'dt_off'), check_dt, 2500, 40000, std_candidates),
